@@ -6,7 +6,7 @@ import ast
 from .pymodel import Program
 from .cymodel import CyProgram, X, pp, walk, rename_x, canonical_mapping, names_in
 from .kernels import report_sites
-from .loopir import count_sites
+from .loopir import count_sites, canon_loopvars, quotient_numerators
 from .report import Run, AnalysisError
 
 TS = "pyunicorn.timeseries._ext.numerics"
@@ -230,11 +230,16 @@ def v3(run: Run, cy: CyProgram):
         f = cy.func(TS, kname)
         if f is None:
             raise AnalysisError(f"{kname} vanished")
-        sites = [s for s in count_sites(f.body) if s.counter == "counter"]
+        body = canon_loopvars(f.body)
+        nums = set(quotient_numerators(body))
+        sites = [s for s in count_sites(body) if s.counter in nums]
         if len(sites) != 1:
             raise AnalysisError(f"{f.where}: counter site not found")
         s = sites[0]
-        pairs = sorted(tuple(sorted(p)) for p in s.pairs("A"))
+        adj = next((n for n, t in f.args if t.kind in ("buffer", "memview")
+                    and t.ndim == 2), "A")
+        size = next((n for n, t in f.args if t.kind == "simple"), "N")
+        pairs = sorted(tuple(sorted(p)) for p in s.pairs(adj))
         ok = pairs == [("i", "j"), ("i", "k"), ("j", "k")]
         run.oblige("V3", f"{kname}:triangle", ok, sample={"pairs": pairs})
         if not ok:
@@ -244,8 +249,9 @@ def v3(run: Run, cy: CyProgram):
         if dom == "past":
             okd = loops.get("j") == "range(i)" and loops.get("k") == "range(j)"
         else:
-            okd = loops.get("j") in ("range((i+1),N)", "range(i+1,N)") and \
-                loops.get("k") in ("range((i+1),j)", "range(i+1,j)")
+            okd = loops.get("j") in (f"range((i+1),{size})", f"range(i+1,{size})",
+                                     f"range((1+i),{size})") and \
+                loops.get("k") in ("range((i+1),j)", "range(i+1,j)", "range((1+i),j)")
         run.oblige("V3", f"{kname}:domain", okd, sample={"loops": loops})
         if not okd:
             run.add("V3", f"{kname}/domain", f"{f.module.relpath}:{s.line}",
